@@ -298,6 +298,36 @@ class RiscV(Machine):
             self.w(self.reg(o[0]), (a << n) if mn == "slli" else (a >> n))
         elif mn == "not":
             self.w(self.reg(o[0]), ~R[self.reg(o[1])])
+        elif mn in ("sll", "srl", "sra", "srai", "slt", "sltu", "neg", "nop", "lui", "seqz", "snez"):
+            # base-ISA instructions the checked-in files happen not to use
+            if mn == "nop":
+                pass
+            elif mn == "lui":
+                self.w(self.reg(o[0]), self.sext((self.imm(o[1]) & 0xFFFFF) << 12, 32))
+            elif mn == "neg":
+                self.w(self.reg(o[0]), -R[self.reg(o[1])])
+            elif mn in ("seqz", "snez"):
+                self.w(self.reg(o[0]), int((R[self.reg(o[1])] == 0) == (mn == "seqz")))
+            elif mn == "srai":
+                n = self.imm(o[2])
+                if not 0 <= n < self.xlen:
+                    raise EmuError("shift amount out of range")
+                self.w(self.reg(o[0]), self.sext(R[self.reg(o[1])], self.xlen) >> n)
+            else:
+                a, b = R[self.reg(o[1])], R[self.reg(o[2])]
+                n = b & (self.xlen - 1)
+                self.w(self.reg(o[0]), {"sll": a << n, "srl": a >> n, "sra": self.sext(a, self.xlen) >> n,
+                                        "slt": int(self.sext(a, self.xlen) < self.sext(b, self.xlen)), "sltu": int(a < b)}[mn])
+        elif mn in ("beqz", "bnez", "blt", "bge", "bltu", "bgeu"):
+            if mn in ("beqz", "bnez"):
+                if (R[self.reg(o[0])] == 0) == (mn == "beqz"):
+                    return self.jump_label(o[1], here)
+            else:
+                a, b = R[self.reg(o[0])], R[self.reg(o[1])]
+                if mn in ("blt", "bge"):
+                    a, b = self.sext(a, self.xlen), self.sext(b, self.xlen)
+                if (a < b) == (mn in ("blt", "bltu")):
+                    return self.jump_label(o[2], here)
         elif mn in ("rori", "ror", "rol", "andn", "orn", "xnor"):
             # Zbb / Zbkb bit-manipulation instructions, in case a variant of a file selects them
             a = R[self.reg(o[1])]
